@@ -177,6 +177,82 @@ theorem tilted_true_nearest (b : Box K) (hdet : M3.det b.vects ≠ 0) (px py pz 
   rw [this] at hlt'
   exact lt_irrefl _ hlt'
 
+/-- the unshifted candidate. -/
+theorem latticeVec_zero (V : M3 K) (d : V3 K) : d + latticeVec V (0, 0, 0) = d := by
+  ext <;> simp [latticeVec, M3.vecMul]
+
+/-- **when the straight difference is already the answer**: `det ≠ 0`; if the direct separation itself is shorter
+    than half the smallest perpendicular width `w` of the periodic axes (`4|p1−p0|² < w²`, `w² ≤ 1/|recipᵢ|²`), then
+    `dvect` returns it unchanged (no hypothesis on where the points are).  The bound is the perpendicular WIDTH, not
+    the length of the cell edges: in a sheared cell a lattice combination such as `a+b` can be shorter than every
+    edge, see the example at the end of this file. -/
+theorem dvect_direct_of_short (b : Box K) (hdet : M3.det b.vects ≠ 0) (px py pz : Bool) (p0 p1 : V3 K) (w2 : K)
+    (hwx : px = true → w2 * V3.normSq b.recip.r0 ≤ 1)
+    (hwy : py = true → w2 * V3.normSq b.recip.r1 ≤ 1)
+    (hwz : pz = true → w2 * V3.normSq b.recip.r2 ≤ 1)
+    (hs : 4 * V3.normSq (p1 - p0) < w2) :
+    dvect b.vects px py pz p0 p1 = p1 - p0 := by
+  obtain ⟨k, hk, hkeq⟩ := dvect_is_image b.vects px py pz p0 p1
+  have hz : Shift.admissible (0, 0, 0) px py pz :=
+    ⟨Or.inr (Or.inl rfl), Or.inr (Or.inl rfl), Or.inr (Or.inl rfl), fun _ => rfl, fun _ => rfl, fun _ => rfl⟩
+  have hmin := dvect_min27 b.vects px py pz p0 p1 (0, 0, 0) hz
+  rw [latticeVec_zero] at hmin
+  have hk0 : k = (0, 0, 0) := by
+    apply short_image_unique b hdet px py pz (p1 - p0) w2 hwx hwy hwz k (0, 0, 0) hk.2.2.2 hz.2.2.2
+    · rw [← hkeq]; linarith
+    · rw [latticeVec_zero]; exact hs
+  rw [hkeq, hk0, latticeVec_zero]
+
+/-- `displacement` of an atom that moved less than half the smallest perpendicular width of the reference cell is the
+    plain difference of its two positions — and only the width gives that guarantee. -/
+theorem dispWith_direct_of_short (b : Box K) (hdet : M3.det b.vects ≠ 0) (px py pz : Bool) (p0 p1 : V3 K) (w2 : K)
+    (hwx : px = true → w2 * V3.normSq b.recip.r0 ≤ 1)
+    (hwy : py = true → w2 * V3.normSq b.recip.r1 ≤ 1)
+    (hwz : pz = true → w2 * V3.normSq b.recip.r2 ≤ 1)
+    (hs : 4 * V3.normSq (p1 - p0) < w2) :
+    dispWith (some (b.vects, px, py, pz)) p0 p1 = dispWith none p0 p1 := by
+  show dvect b.vects px py pz p0 p1 = p1 - p0
+  exact dvect_direct_of_short b hdet px py pz p0 p1 w2 hwx hwy hwz hs
+
+/-- the squared periodic distance is never negative (so its square root, the distance, always exists). -/
+theorem dmag2_nonneg (vects : M3 K) (px py pz : Bool) (p0 p1 : V3 K) : 0 ≤ dmag2 vects px py pz p0 p1 := by
+  rw [dmag2_eq_normsq_dvect]; exact normSq_nonneg _
+
+theorem normSq_eq_zero (a : V3 K) (h : V3.normSq a = 0) : a = ⟨0, 0, 0⟩ := by
+  have hx : a.x = 0 := by
+    simp only [V3.normSq, V3.dot] at h
+    nlinarith [mul_self_nonneg a.x, mul_self_nonneg a.y, mul_self_nonneg a.z]
+  have hy : a.y = 0 := by
+    simp only [V3.normSq, V3.dot] at h
+    nlinarith [mul_self_nonneg a.x, mul_self_nonneg a.y, mul_self_nonneg a.z]
+  have hz : a.z = 0 := by
+    simp only [V3.normSq, V3.dot] at h
+    nlinarith [mul_self_nonneg a.x, mul_self_nonneg a.y, mul_self_nonneg a.z]
+  ext <;> assumption
+
+/-- **periodic copies**: if `p1` is `p0` seen through the boundary — `p1 = p0 + n·vects` for one of the candidate
+    shifts `n` (components in `{-1,0,1}`, zero on non-periodic axes) — then the periodic separation is the zero vector
+    and the periodic distance is exactly `0`, whatever the cell (any tilt, any handedness, `det` may even vanish). -/
+theorem dvect_periodic_copy (vects : M3 K) (px py pz : Bool) (p0 : V3 K) (n : Shift) (hn : n.admissible px py pz) :
+    dvect vects px py pz p0 (p0 + latticeVec vects n) = ⟨0, 0, 0⟩ ∧
+    dmag2 vects px py pz p0 (p0 + latticeVec vects n) = 0 := by
+  have hneg : Shift.admissible (-n.1, -n.2.1, -n.2.2) px py pz := by
+    obtain ⟨h1, h2, h3, r1, r2, r3⟩ := hn
+    refine ⟨by show -n.1 = -1 ∨ -n.1 = 0 ∨ -n.1 = 1; omega, by show -n.2.1 = -1 ∨ -n.2.1 = 0 ∨ -n.2.1 = 1; omega,
+      by show -n.2.2 = -1 ∨ -n.2.2 = 0 ∨ -n.2.2 = 1; omega, fun h => ?_, fun h => ?_, fun h => ?_⟩
+    · show -n.1 = 0; rw [r1 h]; rfl
+    · show -n.2.1 = 0; rw [r2 h]; rfl
+    · show -n.2.2 = 0; rw [r3 h]; rfl
+  have hmin := dvect_min27 vects px py pz p0 (p0 + latticeVec vects n) _ hneg
+  have hz : V3.normSq ((p0 + latticeVec vects n - p0) + latticeVec vects (-n.1, -n.2.1, -n.2.2)) = 0 := by
+    simp only [V3.normSq, V3.dot, latticeVec, M3.vecMul, add_x, add_y, add_z, sub_x, sub_y, sub_z]
+    push_cast
+    ring
+  rw [hz] at hmin
+  have h0 : V3.normSq (dvect vects px py pz p0 (p0 + latticeVec vects n)) = 0 :=
+    le_antisymm hmin (normSq_nonneg _)
+  exact ⟨normSq_eq_zero _ h0, by rw [dmag2_eq_normsq_dvect]; exact h0⟩
+
 /-- **orthogonal cells, any orientation**: the three cell vectors are mutually orthogonal
     (`det ≠ 0`; not necessarily axis-aligned, right-handed or LAMMPS-normal), both points in the
     closed cell.  The returned separation is not longer than the image for **any** `n : ℤ³`
@@ -673,6 +749,29 @@ example :
     let p1 : V3 ℚ := ⟨43/20, 1/2, 0⟩
     InCell b p0 ∧ InCell b p1 ∧
     V3.normSq ((p1 - p0) + latticeVec b.vects (-2, 0, 0)) < V3.normSq (dvect b.vects true true true p0 p1) := by
+  decide +kernel
+
+/-- the hypotheses of `dvect_direct_of_short` can be met (`w² = 36`, `|d|² = 6 < 9`), and they cannot be replaced by
+    "shorter than half the shortest cell EDGE": in the sheared cell `a = (10,0,0)`, `b = (−8,6,0)`, `c = (0,0,10)` every
+    edge has length 10, the move `d = (3/2, 4, 0)` has `|d|² = 73/4 < 25`, both positions are inside the cell, and yet
+    the periodic separation is `d − a − b = (−1/2, −2, 0)` (squared length `17/4`), not `d`. -/
+example :
+    let b : Box ℚ := ⟨⟨⟨10, 0, 0⟩, ⟨-8, 6, 0⟩, ⟨0, 0, 10⟩⟩, ⟨1, -2, 1/2⟩⟩
+    let p0 : V3 ℚ := ⟨6/5, -7/5, 11/2⟩
+    let p1 : V3 ℚ := ⟨27/10, 13/5, 11/2⟩
+    let q1 : V3 ℚ := ⟨16/5, -2/5, 13/2⟩
+    M3.det b.vects ≠ 0 ∧ InCell b p0 ∧ InCell b p1 ∧
+    (36 : ℚ) * V3.normSq b.recip.r0 ≤ 1 ∧ (36 : ℚ) * V3.normSq b.recip.r1 ≤ 1 ∧ (36 : ℚ) * V3.normSq b.recip.r2 ≤ 1 ∧
+    4 * V3.normSq (q1 - p0) < 36 ∧ dvect b.vects true true true p0 q1 = q1 - p0 ∧
+    V3.normSq b.vects.r0 = 100 ∧ V3.normSq b.vects.r1 = 100 ∧ V3.normSq b.vects.r2 = 100 ∧
+    4 * V3.normSq (p1 - p0) < 100 ∧
+    dvect b.vects true true true p0 p1 = ⟨-1/2, -2, 0⟩ ∧ dvect b.vects true true true p0 p1 ≠ p1 - p0 ∧
+    dvect b.vects true true false p0 p1 = ⟨-1/2, -2, 0⟩ := by
+  decide +kernel
+
+/-- a decimal (4.05-type) tilted cell: the copy through `(1,-1,0)` is at separation exactly zero. -/
+example : dvect (⟨⟨81/20, 0, 0⟩, ⟨81/200, 81/20, 0⟩, ⟨0, -81/100, 81/20⟩⟩ : M3 ℚ) true true false ⟨1/10, 1/5, 3/10⟩
+    ((⟨1/10, 1/5, 3/10⟩ : V3 ℚ) + latticeVec (⟨⟨81/20, 0, 0⟩, ⟨81/200, 81/20, 0⟩, ⟨0, -81/100, 81/20⟩⟩ : M3 ℚ) (1, -1, 0)) = ⟨0, 0, 0⟩ := by
   decide +kernel
 
 /-- tie-break: two candidates of equal length, the first in loop order is returned. -/
